@@ -179,7 +179,7 @@ fn panic_violation(p: &guard::PanicInfo, what: &str, wit: Value) -> (String, Str
 fn run_case(ctx: &Ctx, w: &World, idx: u64, c: &Case) -> CaseOut {
     let mut o = CaseOut::new();
     let wall0 = std::time::Instant::now();
-    let budget = ctx.param("cpu_budget_s").and_then(|s| s.parse().ok()).unwrap_or(if ctx.quick() { 20.0 } else { 90.0 });
+    let budget = ctx.param("cpu_budget_s").and_then(|s| s.parse().ok()).unwrap_or(if ctx.quick() { 30.0 } else { 90.0 });
     forkrun::PROBE_BUDGET_S.store(budget as u64, Relaxed);
     let limits = Limits { cpu_budget_s: budget, rlimit_as: ctx.budget("rlimit_as_mib", 6144, 6144) << 20 };
     let errfile = ctx.work.join(format!("batch-{}-{idx}.stderr", std::process::id()));
@@ -515,7 +515,7 @@ fn main() {
     rep.extra.insert("cases".into(), json!(cases.len()));
     rep.extra.insert("deterministic_corpus_items".into(), json!(w.items.len()));
     rep.extra.insert("stored_witnesses".into(), json!(w.witnesses.len()));
-    let budget = ctx.param("cpu_budget_s").and_then(|s| s.parse().ok()).unwrap_or(if ctx.quick() { 20.0 } else { 90.0 });
+    let budget = ctx.param("cpu_budget_s").and_then(|s| s.parse().ok()).unwrap_or(if ctx.quick() { 30.0 } else { 90.0 });
     let max_valid_ms = rep.counters.get("max_valid_case_cpu_us").copied().unwrap_or(0) as f64 / 1000.0;
     let max_dbg_ms = rep.counters.get("max_valid_debug_call_us").copied().unwrap_or(0) as f64 / 1000.0;
     rep.extra.insert("max_valid_case_cpu_ms".into(), json!(max_valid_ms));
